@@ -505,7 +505,14 @@ func Chain(run *hx.Run, r *hx.Rng, kinds []string, maxDepth int) {
 	var cur Desc
 	focus := false  // structured source: mostly the index-remapping operations
 	subsel := false // first step: SetIndices with a subset of the mesh's own primitives
-	switch r.Intn(9) {
+	preferDecimal = 99
+	weldFirst := false
+	switch r.Intn(10) {
+	case 8, 9:
+		cur, preferDecimal = Clustered(r)
+		weldFirst = r.Chance(2, 3)
+		run.Count(fmt.Sprintf("source:clustered:decimal=%d", preferDecimal))
+		focus = true
 	case 0, 1, 2:
 		var stray, degen string
 		cur, stray, degen = Structured(r)
@@ -542,6 +549,9 @@ func Chain(run *hx.Run, r *hx.Rng, kinds []string, maxDepth int) {
 				break
 			}
 			o = OpDesc{Op: "unweld"}
+		}
+		if weldFirst && s == 0 {
+			o = RandomOp(r, cur, []string{"weld"})
 		}
 		if subsel && s == 0 {
 			o = SubselectOp(r, cur)
@@ -598,8 +608,11 @@ func Law(run *hx.Run, r *hx.Rng) {
 	if law == "weldunweld" {
 		opt.NeedPos = true
 	}
-	ld := LawDesc{Law: law, In: Random(r, opt)}
-	if r.Chance(1, 2) {
+	ld := LawDesc{Law: law, In: Random(r, opt), Decimal: hx.Pick(r, []int{0, 1, 2, -1, -2})}
+	if law == "weldunweld" && r.Chance(1, 3) {
+		ld.In, ld.Decimal = Clustered(r)
+		run.Count("law:clustered-input")
+	} else if r.Chance(1, 2) {
 		for tries := 0; tries < 8; tries++ {
 			d, _, _ := Structured(r)
 			if !opt.FixTopo || d.Topo == opt.Topo {
@@ -611,7 +624,8 @@ func Law(run *hx.Run, r *hx.Rng) {
 	}
 	if law == "weldunweld" {
 		ld.Attr = "Position"
-		ld.Decimal = hx.Pick(r, []int{0, 2, -1, -2})
+	} else {
+		ld.Decimal = 0
 	}
 	run.Count("law:" + law)
 	run.Add(LawCase(ld))
